@@ -74,6 +74,13 @@ func (tx *FnTx) exec(in ssa.Instruction, st *State) *State {
 		ref := tx.define(x, st.alloc)
 		n := st.clone()
 		n.alloc = "(+ " + ref.S + " 1)"
+		if at, ok := et.Underlying().(*types.Array); ok {
+			// arrays behind escaping pointers live in the element heap (so that slicing them aliases correctly)
+			comp := tx.h.elemComp(at.Elem())
+			ht := tx.h.heapTerm(st, comp)
+			n.heaps[comp.Name] = sapp("store", ht, ref.S, fmt.Sprintf("((as const (Array Int %s)) %s)", comp.VSort, tx.d.zero(at.Elem()).S))
+			return n
+		}
 		// zero-initialise
 		return tx.store(x, tx.d.zero(et), n)
 	case *ssa.BinOp:
@@ -343,9 +350,15 @@ func (tx *FnTx) indexAddr(x *ssa.IndexAddr, st *State) {
 	case *types.Pointer:
 		at := u.Elem().Underlying().(*types.Array)
 		tx.safety("index", sand("(<= 0 "+i.S+")", fmt.Sprintf("(< %s %d)", i.S, at.Len())), "array index in range")
-		l := tx.locOfPointer(x.X, st)
+		var l *Loc
+		if _, isStatic := tx.locs[x.X]; isStatic {
+			l = tx.locs[x.X]
+		} else if a, ok := x.X.(*ssa.Alloc); ok && tx.localAlloc[a] {
+			l = tx.locOfPointer(x.X, st)
+		}
 		if l == nil {
-			tx.unsupportedf("index through pointer %s", x.X.Name())
+			ref := tx.val(x.X)
+			tx.locs[x] = &Loc{Kind: locHeap, Comp: tx.h.elemComp(at.Elem()), Ref: ref.S, Idx: i.S, T: at.Elem()}
 			return
 		}
 		nl := *l
@@ -385,10 +398,20 @@ func (tx *FnTx) sliceOp(x *ssa.Slice, st *State) *State {
 		t := tx.define(x, sapp("substr", s.S, lo, hi))
 		tx.assume("(= (strlen " + t.S + ") (- " + hi + " " + lo + "))")
 	case *types.Pointer:
-		_ = u
-		tx.unsupportedf("slicing an array pointer in %s", tx.key)
-		t := tx.define(x, "")
-		tx.assumeTyped(t, x.Type(), st)
+		at := u.Elem().Underlying().(*types.Array)
+		if _, isStatic := tx.locs[x.X]; isStatic {
+			tx.unsupportedf("slicing an array inside another object in %s", tx.key)
+			t := tx.define(x, "")
+			tx.assumeTyped(t, x.Type(), st)
+			break
+		}
+		ref := tx.val(x.X)
+		hi := fmt.Sprint(at.Len())
+		if x.High != nil {
+			hi = tx.val(x.High).S
+		}
+		tx.safety("slice", sand("(<= 0 "+lo+")", "(<= "+lo+" "+hi+")", fmt.Sprintf("(<= %s %d)", hi, at.Len())), "slice bounds of array in range")
+		tx.define(x, fmt.Sprintf("(mk-slice %s %s (- %s %s) (- %d %s))", ref.S, lo, hi, lo, at.Len(), lo))
 	}
 	return st
 }
